@@ -2,6 +2,7 @@
 # runall.sh <tier> : run every registered check, print one summary line each
 tier=${1:-quick}
 cd "$(dirname "$0")/.."
+mkdir -p out
 for p in $(python3 -c "import json;print(' '.join(c['property_id'] for c in json.load(open('MANIFEST.json'))['checks']))"); do
   s=$(date +%s)
   ./check $p $tier > out/run_$p.log 2>&1
